@@ -307,6 +307,20 @@ func configs(r *vk.Run) []sw.SysOpts {
 	add("gop1cap1", lean, true, "rtmp.gop_num", 1, "httpflv.gop_num", 1, "rtmp.single_gop_max_frame_num", 1, "httpflv.single_gop_max_frame_num", 1)
 	add("gop2cap2", lean, true, "rtmp.gop_num", 2, "httpflv.gop_num", 2, "rtmp.single_gop_max_frame_num", 2, "httpflv.single_gop_max_frame_num", 2)
 	add("nopub-start", av, false, "rtmp.gop_num", 1, "httpflv.gop_num", 1)
+	// non-initial start states: a previous publisher has already filled (and wrapped) the GOP rings
+	hist := [][]string{
+		{"P:vsh", "P:key", "P:inter", "PubLeave", "PubArrive"},
+		{"P:vsh", "P:key", "P:key", "P:inter", "PubLeave", "PubArrive"},
+		{"P:vsh", "P:key", "P:inter", "P:key", "P:key", "PubLeave", "PubArrive"},
+	}
+	leanTs := append(append([]string{}, lean...), "J:ts")
+	for i, h := range hist {
+		for _, g := range []int{1, 2} {
+			add(fmt.Sprintf("gop%d-after-history%d", g, i), leanTs, true, "rtmp.gop_num", g, "httpflv.gop_num", g, "httpts.gop_num", g)
+			cs[len(cs)-1].Prefix = h
+			cs[len(cs)-1].MaxInc = 3
+		}
+	}
 	if !r.Quick() {
 		add("gop3", av, true, "rtmp.gop_num", 3, "httpflv.gop_num", 3, "httpts.gop_num", 2)
 		add("gop1-full", full, true, "rtmp.gop_num", 1, "httpflv.gop_num", 2, "httpts.gop_num", 1)
@@ -339,7 +353,7 @@ func main() {
 		r.Finish()
 	}
 	r.SetBudget(5*time.Minute, 60*time.Minute)
-	depth := 6
+	depth := 5
 	if !r.Quick() {
 		depth = 9
 	}
